@@ -236,6 +236,12 @@ class _StepGraph:
             ValueError: If the graph produced by adding the step is not
                 a DAG.
         """
+        if path in self._graph:
+            # a step registered again (a structural update put a new
+            # step at the path of an old one) depends on what is
+            # listed now, not on what the old step listed
+            self._graph.remove_edges_from(
+                list(self._graph.in_edges(path)))
         self._graph.add_node(path)
         for dependency in dependencies:
             self._graph.add_edge(dependency, path)
